@@ -52,6 +52,7 @@ props["C09"] = {
     "level": "model_checking", "validate": 6,
     "runs": [run("root", f, c09q, c09t) for f in ["VxC09PageMap", "VxC09ReadFrame", "VxC09Budget", "VxC09Resume"]] + [
         run("root", "VxC09Checksum", T, T),
+        run("root", "VxC09Resume", {"PS": 8, "K": 2, "_tactic": 1, "FAR": 134217729}, {"PS": 8, "K": 3, "_tactic": 1, "FAR": 134217729}, note="the frames sit 4 GiB into the file: offset arithmetic beyond 32 bits"),
         run("root", "VxC09PageMap", None, {"PS": 64, "K": 2, "_tactic": 1}, tier="thorough", note="longer checksum loops (8 words per page)"),
         run("root", "VxC09ReadFrame", None, {"PS": 512, "K": 1, "_tactic": 1}, tier="thorough", note="smallest real page size"),
     ],
@@ -357,11 +358,14 @@ props["C03"] = {
 
 props["C02"] = {
     "level": "model_checking", "validate": 6,
+    "unreached_ok": ["idle-round-keeps-replica-at-source"],
     "runs": [
         run("root", "VxC02Snapshot", {}, {}),
         run("root", "VxC02MaxLTX", {}, {}),
         run("root", "VxC09Budget", {"PS": 8, "K": 2, "_tactic": 1}, {"PS": 8, "K": 3, "_tactic": 1}, note="pageMap cuts only at commit frames (shared with C09)"),
         run("root", "VxC01Sync", {}, {}, note="each level-0 file holds committed pages only and is numbered pos+1 (shared with C01)"),
+        run("root", "VxC09Resume", {"PS": 8, "K": 2, "_tactic": 1}, {"PS": 8, "K": 3, "_tactic": 1}, note="a copy that resumes mid-WAL only continues the generation and position it was given (shared with C09)"),
+        run("root", "VxC04Fresh", {"ROUND2": 0}, {"ROUND2": 0}, note="after a restart, whatever verify decides, the file the next sync publishes is one consistent state: the source (shared with C04)"),
         run("root", "VxC14Checkpoint", {}, {}, note="checkpoint protocol: a PASSIVE checkpoint runs under the write lock after a sealing copy; an unsealed checkpoint is followed by a boundary snapshot under the write lock (shared with C14/C01)"),
     ],
     "assumptions": [
